@@ -238,6 +238,24 @@ def run(A, R: Report, thorough: bool):
     reg_maps = [x for x in dag_nodes(K.REGISTRY) if x[0] == 'map']
     drop_none = any(x[4] is not None and any(y[0] == 'cmp' and y[1] in ('IsNot', 'NotEq') and NONE_T in y[2:] for y in dag_nodes(x[4])) for x in reg_maps)
     R.check(drop_none, 'R02.4', 'ParameterRegistry.repr', key_of('drop-none'), 'None reprs filtered', 'parameters excluded from persistence (repr None) are not filtered out of the registry repr', where=where(K.f_registry))
+    # a registry in which nothing contributes renders exactly as a registry without parameters: every joined text is taken only when the
+    # collection of contributing reprs is non-empty, and the alternative is the value of the empty registry (None)
+    empty_ok, seen_join = True, False
+    for leaf, guards in branches(K.REGISTRY):
+        if leaf[0] != 'join':
+            continue
+        seen_join = True
+        coll = leaf[2]
+        tested = any(pol and (g_ == coll or (g_[0] == 'cmp' and g_[1] in ('Gt', 'NotEq') and g_[2] == ('call', 'len', (coll,)) and g_[3] == ('lit', 0))) for g_, pol in guards) or \
+            any((not pol) and (g_ == ('not', coll) or (g_[0] == 'cmp' and g_[1] == 'Eq' and g_[2] == ('call', 'len', (coll,)) and g_[3] == ('lit', 0))) for g_, pol in guards)
+        empty_ok = empty_ok and tested
+    if not seen_join:
+        R.undecided('R02.4', 'ParameterRegistry.repr: nothing contributes', 'joined text not found among the alternatives of the registry repr', where=where(K.f_registry))
+    else:
+        others = [leaf for leaf, _ in branches(K.REGISTRY) if leaf[0] != 'join']
+        R.check(empty_ok and all(o == NONE_T for o in others), 'R02.4', 'ParameterRegistry.repr: nothing contributes', key_of('empty-registry', empty_ok, [pretty(o)[:30] for o in others]), 'no contributing parameter -> None, as for no parameter',
+                'when every declared parameter is excluded from persistence the registry renders as the empty string instead of None (the value of a registry without parameters): declaring an ignored / defaulted parameter changes '
+                'the hashed text from `None$$$..` to `$$$..`, i.e. the key', where=where(K.f_registry))
     apo_dicts = [x for x in dag_nodes(K.APO) if x[0] == 'mapdict']
     if not apo_dicts:
         R.undecided('R02.4', 'AutoParameterObject.repr', 'argument-collection idiom not recognised', where=where(K.f_apo))
